@@ -65,7 +65,7 @@ from _gettsim.vectorization import make_vectorizable
 snips = json.loads(sys.stdin.read())
 out = {}
 for name, src in snips:
-    fn = "/verif/work/u8_snip_%s.py" % name
+    fn = str(C.WORK / ("u8_snip_%s.py" % name))
     open(fn, "w").write(src)
     spec = importlib.util.spec_from_file_location("snip_" + name, fn)
     mod = importlib.util.module_from_spec(spec); spec.loader.exec_module(mod)
